@@ -1707,6 +1707,41 @@ func listingCompleteIn(c *Ctx, r *Result, rule string, fn *ssa.Function, appends
 			}
 			return false
 		}
+		// the listing ends when the entries are exhausted, or with an error - not on a property of one entry: a branch inside
+		// the loop whose successor is the loop's normal exit ends the listing early
+		exits := map[*ssa.BasicBlock]bool{}
+		for _, s := range L.h.Succs {
+			if !L.body[s] {
+				exits[s] = true
+			}
+		}
+		for b := range L.body {
+			if b == L.h {
+				continue
+			}
+			ifi, ok := b.Instrs[len(b.Instrs)-1].(*ssa.If)
+			if !ok {
+				continue
+			}
+			for _, s := range b.Succs {
+				t := s
+				for i := 0; i < 3 && !exits[t] && !L.body[t]; i++ {
+					if len(t.Instrs) == 1 && len(t.Succs) == 1 {
+						t = t.Succs[0]
+					} else {
+						break
+					}
+				}
+				if !L.body[s] && exits[t] {
+					n++
+					pos := c.Pos(fn.Pos())
+					if ci, isI := ifi.Cond.(ssa.Instruction); isI {
+						pos = c.InstrPos(ci)
+					}
+					found = append(found, skipT{pos, false})
+				}
+			}
+		}
 		for b := range L.body {
 			if b == L.h || done[b] {
 				continue
